@@ -393,8 +393,8 @@ func init() {
 		Level:       "fault_enumeration",
 		Cases:       func(tier string) int { return tierN(tier, 160, 5000) },
 		CaseTimeout: 300e9,
-		Rule: "case = one history (10-36 ops; 1-8 keys; cache 0/3; fast index on/off; flush threshold 150..default). At up to 3 points of the history every public operation with an error result is first run fault-free on a fresh handle over a clone of the store with the storage wrapper numbering its storage calls, then re-run once per call index (all indices up to 120 per operation, evenly sampled beyond) with exactly that call failing (Get, Has, iterator creation, iterator step, batch Set/Delete/Write), plus 2 random multi-fault runs (p=0.08). " +
-			"Read operations: Get, Has, GetWithIndex, GetByIndex, GetVersioned, GetImmutable+Get/GetWithIndex, GetProof, GetVersionedProof, Iterate and Iterator (mutable and immutable, both directions), Export, TraverseStateChanges, LoadVersion, GetLatestVersion. Write operations: SaveVersion, DeleteVersionsTo, LoadVersionForOverwriting, Import (incl. one >10000-node import per 16 cases). " +
+		Rule: "case = one history (10-36 ops; 1-8 keys; cache 0/3; fast index on/off; flush threshold 150..default). At up to 3 points of the history every public operation with an error result is first run fault-free on a fresh handle over a clone of the store with the storage wrapper numbering its storage calls, then re-run once per call index (all indices up to 100 per operation, evenly sampled beyond) with exactly that call failing (Get, Has, iterator creation, iterator step, batch Set/Delete/Write), plus 2 random multi-fault runs (p=0.08). " +
+			"Read operations: Get, Has, GetWithIndex, GetByIndex, GetVersioned, GetImmutable+Get/GetWithIndex, GetProof, GetVersionedProof, Iterate and Iterator (mutable and immutable, both directions), Export, TraverseStateChanges, LoadVersion, GetLatestVersion. Write operations: SaveVersion, DeleteVersionsTo, LoadVersionForOverwriting, Import (incl. one >10000-node import per 32 cases, for which every batch write is failed once). " +
 			"Oracle: an injected fault must end in an error, or in exactly the fault-free result (fallback paths are fine); a panic is a violation; a write operation during which a write call failed must not return success; after a faulted write operation a fresh tree on the store left behind must show the state before or after (C05 oracle: version set, every version readable on all paths), and exactly the new state if success was reported. " +
 			"evaluations = histories; faults_injected counts the faulted executions; distinct = hash(config, ops); non-trivial = >=200 faults injected in the case incl. >=1 write operation.",
 		Assumptions: []string{"faults are injected at the corestore interface (the seam the property is stated on); a failed batch Write applies nothing", "operations without an error result (IterateRange, Hash, VersionExists, AvailableVersions) are outside the statement"},
@@ -407,7 +407,7 @@ func init() {
 			if c.Index < 2 {
 				c.Res.Sample = pl.Summary(60)
 			}
-			capF := 120
+			capF := 100
 			e, err := v1x.NewEnv(c, pl.Cfg)
 			if err != nil {
 				c.Violate(0, "exec|open|error", "%v", err)
@@ -484,7 +484,7 @@ func init() {
 			// import under faults
 			if !e.Dead && e.M.Latest > 0 && len(c.Res.Violations) == 0 {
 				v := e.M.Latest
-				big := c.Index%16 == 8
+				big := c.Index%32 == 8
 				src := e
 				if big {
 					be, err := v1x.NewEnv(c, v1x.Config{Backend: "mem", Fast: false})
